@@ -78,6 +78,10 @@ func TestSim(t *testing.T) {
 		_ = w.WriteByte('\n')
 	}
 	switch mode {
+	case "meta":
+		b, _ := json.Marshal(p.Meta)
+		_, _ = w.Write(b)
+		_ = w.WriteByte('\n')
 	case "gen":
 		sc := p.Gen(seed, envInt("VSIM_FROM", 0), tier)
 		b, _ := json.Marshal(sc)
